@@ -218,7 +218,7 @@ class PseudoOperand(Operand):
 
     def resolve_symbols(self, symbol_table):
         if self.instruction.mnemonic in ["FCB", "FDB", "RMB", "ORG"]:
-            if self.value.is_symbol() or self.value.is_expression():
+            if self.value.is_symbol() or self.value.is_expression() or self.value.is_multi_byte() or self.value.is_multi_word():
                 self.value = self.value.resolve(symbol_table)
         return self
 
